@@ -234,6 +234,15 @@ pub fn run(p: &Prog, cfg: &Cfg, rep: &mut Report) {
                     let mut harness = case.harness();
                     let out = p.wrappers[&h.kind].dispatch(wrapped, &mut harness);
                     check_call(&p.model, h, args, case, &harness, &out, "wrapper")?;
+                    // ... and the way a message really arrives: the part's own JSON decoded as the
+                    // contract-level message, then dispatched
+                    let text = ops.to_json(&*(p.builders[&h.id])(args)?.lit).map_err(|e| Bad::Harness(format!("HARNESS: {e}")))?;
+                    let w = p.wrappers[&h.kind].from_json(text.as_bytes()).map_err(|e| {
+                        viol(format!("wrapper-json:{}", h.kind.attr()), "the contract-level message does not decode the JSON of the message its part serialises", json!({"handler": h.id, "json": text, "error": e}))
+                    })?;
+                    let mut harness = case.harness();
+                    let out = p.wrappers[&h.kind].dispatch(w, &mut harness);
+                    check_call(&p.model, h, args, case, &harness, &out, "wrapper-json")?;
                 }
                 Ok(())
             },
